@@ -4,36 +4,8 @@ import json, os, sys
 
 ROOT = os.path.dirname(os.path.dirname(os.path.abspath(__file__)))
 
-MC = "model_checking"
-EX = "exploration"
-FE = "fault_enumeration"
-
-# id -> (built, category, technique, level text, level note, design ref)
-P = {
- "C01": (False, MC, "bounded exhaustive enumeration of layer lists x exact face enumeration of the input space (region refinement) against a reference network semantics",
-         "", "", "4/C01"),
- "C02": (True, MC, "bounded exhaustive enumeration of tree pairs x exhaustive enumeration of all faces (incl. boundary faces) of the induced hyperplane arrangement; real compose() executed on every pair",
-         "Every pair (f,g) of trees within the stated size/alphabet bound is composed with the real code and h is compared with g after f on every relatively open face of the arrangement of all predicates involved, i.e. for every real input including boundary inputs; definedness, surviving indices and the untouched right operand are checked on every pair. Exhaustive within the bound, nothing sampled.",
-         "Trusted: exact rational LP of the explorer, snapshot reading of the arena (bound to the real evaluate/find_terminal by conformance calls at every visited face with a dyadic witness). Bound: trees of <=5 (quick) / <=7 (thorough) nodes over 3 predicates and 3 terminal maps per dimension, K in {2,4}.",
-         "4/C02"),
- "C03": (False, MC, "", "", "", "4/C03"),
- "C04": (False, MC, "", "", "", "4/C04"),
- "C05": (False, MC, "", "", "", "4/C05"),
- "C06": (False, MC, "", "", "", "4/C06"),
- "C07": (False, MC, "", "", "", "4/C07"),
- "C08": (False, MC, "", "", "", "4/C08"),
- "C09": (False, MC, "", "", "", "4/C09"),
- "C10": (False, EX, "", "", "", "4/C10"),
- "C11": (False, FE, "", "", "", "4/C11"),
- "C12": (False, MC, "", "", "", "4/C12"),
- "C13": (False, MC, "", "", "", "4/C13"),
- "C14": (False, EX, "", "", "", "4/C14"),
- "C15": (False, EX, "", "", "", "4/C15"),
- "C16": (False, EX, "", "", "", "4/C16"),
- "C17": (False, MC, "", "", "", "4/C17"),
- "C18": (False, MC, "", "", "", "4/C18"),
- "C19": (False, EX, "", "", "", "4/C19"),
-}
+sys.path.insert(0, os.path.join(ROOT, "tools"))
+from manifest_table import P
 
 def main():
     extra = {}
